@@ -11,6 +11,7 @@ import (
 
 	"verif/mc/engines/e1"
 	"verif/mc/engines/e2"
+	"verif/mc/engines/e3"
 	"verif/mc/engines/e4"
 	"verif/mc/engines/e5"
 	"verif/mc/hx"
@@ -69,6 +70,20 @@ func main() {
 			(&e2.Checker{Rep: rep, Props: p}).Check(b)
 		} else {
 			e2.Run(rep, p, *tier, sh, deadline)
+		}
+	case "e3":
+		eng := &e3.Engine{Rep: rep, WD: hx.NewWatchdog(rep, 20*time.Second), Deadline: deadline, MaxW: 2, MaxDepth: 40, MaxState: 3000000, Sh: sh}
+		if *tier == "thorough" {
+			eng.MaxW = 3
+		}
+		if *replay != "" {
+			eng.MaxW = 3
+			if err := eng.Replay(*replay); err != nil {
+				fmt.Fprintln(os.Stderr, err)
+				os.Exit(3)
+			}
+		} else {
+			eng.Run(*tier)
 		}
 	case "e4":
 		ctx := &e4.Ctx{Rep: rep, Sh: sh, Deadline: deadline, WD: hx.NewWatchdog(rep, 30*time.Second)}
